@@ -170,6 +170,16 @@ def run_word(ctx, h, nletters, prefix_ops=12):
     mm = storecheck.shape_mm(rng, h // 3) if h % 3 == 0 else store.gen_mm(rng)
     cw = CmdWorld(mm)
     w = cw.w
+    # a twin model that goes through the same word one command per `execute` call: several commands handed to one call
+    # must do what the same commands do one call at a time
+    cw2 = CmdWorld(mm)
+    w2 = cw2.w
+    _apply = w.apply
+
+    def both(line):
+        w2.apply(line)
+        return _apply(line)
+    w.apply = both
     g = store.Gen(rng, mm, w, max_objs=6)
     pre = []
     for _ in range(prefix_ops):                 # reach some model state first
@@ -235,7 +245,61 @@ def run_word(ctx, h, nletters, prefix_ops=12):
             if steals:
                 ctx.count('cmd/excluded-steal')
                 continue
+            if rng.random() < .2 and spec[0] != 'Compound':
+                # two or three commands in one call of execute()
+                specs = [spec]
+                for _ in range(rng.randint(1, 2)):
+                    c2 = gen_cmd(rng, mm, w, prefer_delete=left_behind)
+                    if c2 is not None and c2[0][0] != 'Compound' and not c2[1]:
+                        specs.append(c2[0])
+                if len(specs) > 1:
+                    word.append(('exec-batch', specs))
+                    ctx.count('cmd/batch')
+                    # the twin: one at a time, each judged (can it execute? does it steal?) in the state it runs in
+                    stop, tainted, entries = None, False, []
+                    for sp2 in specs:
+                        try:
+                            c_t = cw2.build(sp2)
+                            can_t = c_t.can_execute
+                        except Exception:
+                            can_t = False
+                        if not can_t:
+                            stop = sp2
+                            break
+                        if sp2[0] in ('Set', 'Add') and isinstance(sp2[3], str) and sp2[3].startswith('o:') \
+                                and not no_steal(w2, mm, sp2[0], sp2[1], mm.feats[sp2[2]], int(sp2[3][2:])):
+                            tainted = True
+                        b2 = w2.dump()
+                        try:
+                            cw2.stack.execute(c_t)
+                        except Exception:
+                            tainted = True
+                            break
+                        entries.append((b2, w2.dump(), sp2))
+                    try:
+                        cw.stack.execute(*[cw.build(sp2) for sp2 in specs])
+                        raised = None
+                    except Exception as e:
+                        raised = type(e).__name__
+                    if tainted:
+                        ctx.count('cmd/batch-excluded')
+                        break
+                    ctx.evaluations += 1
+                    if w.dump() != w2.dump() or bool(raised) != (stop is not None):
+                        fail('batch', f'execute(c1, …, cn) with {specs}: the model is not what executing them one call at a time gives '
+                                      f'(the call {"raised " + raised if raised else "returned"}; one at a time '
+                                      f'{"stops at " + str(stop) if stop else "executes all"})', {'cmd': 'batch'})
+                        break
+                    if w.dump() != before:
+                        ctx.nontriv((h, step))
+                    shadow = shadow[:idx + 1] + entries
+                    idx += len(entries)
+                    continue
             word.append(('exec', spec))
+            try:
+                cw2.stack.execute(cw2.build(spec))
+            except Exception:
+                pass
             try:
                 cw.stack.execute(cmd)
             except Exception as e:
@@ -252,6 +316,10 @@ def run_word(ctx, h, nletters, prefix_ops=12):
         elif letter < .8:
             word.append(('undo',))
             ctx.count('letter/undo')
+            try:
+                cw2.stack.undo()
+            except Exception:
+                pass
             try:
                 cw.stack.undo()
                 raised = None
@@ -280,6 +348,10 @@ def run_word(ctx, h, nletters, prefix_ops=12):
         else:
             word.append(('redo',))
             ctx.count('letter/redo')
+            try:
+                cw2.stack.redo()
+            except Exception:
+                pass
             try:
                 cw.stack.redo()
                 raised = None
